@@ -365,11 +365,14 @@ pub fn gen_world(r: &mut Rng) -> Vec<Tree> {
             } else if r.chance(1, 3) {
                 // the first 54 bytes: prefix and sequence of a sealed datagram; version, protocol id, expiry, nonce of a request
                 (1, r.below(54 * 8), 0)
+            } else if r.chance(1, 3) {
+                // the prefix byte: another packet type, another sequence length
+                (r.range(5, 6), 0, r.below(16))
             } else {
                 (r.range(1, 4), r.below(12000), r.below(256))
             }
         };
-        let w: [u32; 26] = [14, 16, 14, 3, 3, 6, 9, 9, 5, 2, 2, 2, 3, 3, 3, 2, 10, 2, 2, 3, 4, 3, 4, 3, 2, 3];
+        let w: [u32; 27] = [14, 16, 14, 3, 3, 6, 9, 9, 5, 2, 2, 2, 3, 3, 3, 2, 10, 2, 2, 3, 4, 3, 4, 3, 2, 3, 4];
         match r.weighted(&w) {
             0 => {
                 // time passes for everybody (mostly), or for one endpoint only
@@ -519,6 +522,21 @@ pub fn gen_world(r: &mut Rng) -> Vec<Tree> {
                 ops.push(l(vec![n(155u8), n(k), n(k), n(r.range(0, 300))]));
             }
             23 => ops.push(l(vec![n(158u8), n(k), n(r.range(0, 300)), b(&r.bytes(300))])),
+            25 => {
+                // type confusion: genuine datagrams of a live session arrive with another packet type in the clear prefix
+                // (keep-alive relabelled as payload, payload relabelled as keep-alive), then the genuine payload itself
+                ops.push(l(vec![n(170u8), n(k), n(3u8)]));
+                ops.push(l(vec![n(103u8), n(k), n(250 * MS)]));
+                ops.push(l(vec![n(150u8), n(k), n(0u8), n(5u8), n(0u8), n(*r.pick(&[5u64, 6, 1]))]));
+                let plen = *r.pick(&[8usize, 100]);
+                ops.push(l(vec![n(105u8), n(k), b(&r.bytes(plen))]));
+                ops.push(l(vec![n(150u8), n(k), n(0u8), n(5u8), n(0u8), n(*r.pick(&[4u64, 6]))]));
+                ops.push(l(vec![n(150u8), n(k), n(0u8), n(0u8), n(0u8), n(0u8)]));
+                // and towards the client
+                ops.push(l(vec![n(114u8), n(id), b(&r.bytes(8))]));
+                ops.push(l(vec![n(152u8), n(k), n(0u8), n(5u8), n(0u8), n(*r.pick(&[4u64, 6, 1]))]));
+                ops.push(l(vec![n(152u8), n(k), n(0u8), n(0u8), n(0u8), n(0u8)]));
+            }
             24 => {
                 // denied, admitted later, then the old denial arrives: the server is full when k asks, the slot frees,
                 // k gets in, and a datagram from the time of the refusal is delivered late
